@@ -6,6 +6,22 @@ class PackageNotInstalledError(Exception):
     pass
 
 
+def weights_for(X, Q):
+    """The stand-in forest: weight 1/2 on the two training rows nearest to the query (ties by index),
+    weight 1 on the nearest one when there is a single training row or WEIGHT_MODE is 'nearest'."""
+    m, ntrain = len(Q), len(X)
+    W = np.zeros((m, ntrain))
+    for r in range(m):
+        d = ((X - Q[r]) ** 2).sum(axis=1)
+        order = sorted(range(ntrain), key=lambda t: (d[t], t))
+        if ntrain == 1 or rpy2.WEIGHT_MODE[0] == "nearest":
+            W[r, order[0]] = 1.0
+        else:
+            W[r, order[0]] = 0.5
+            W[r, order[1]] = 0.5
+    return W
+
+
 class _Fit:
     variable_importance = None
 
@@ -35,17 +51,7 @@ class _Drf:
     def predict_drf(fit, newdata):
         Q = np.array(newdata, dtype=float, copy=True)
         rpy2.LOG.append(("predict", fit.fit_id, Q.copy()))
-        m, ntrain = len(Q), len(fit.X)
-        W = np.zeros((m, ntrain))
-        for r in range(m):
-            d = ((fit.X - Q[r]) ** 2).sum(axis=1)
-            order = sorted(range(ntrain), key=lambda t: (d[t], t))
-            if ntrain == 1 or rpy2.WEIGHT_MODE[0] == "nearest":
-                W[r, order[0]] = 1.0
-            else:
-                W[r, order[0]] = 0.5
-                W[r, order[1]] = 0.5
-        return [W, fit.Y.copy()]
+        return [weights_for(fit.X, Q), fit.Y.copy()]
 
     @staticmethod
     def print_drf(fit):
